@@ -1,6 +1,7 @@
 // h_idl runs idl.New from /repo on hex-encoded inputs (one per line) and
 // prints the canonical dump defined in coq/Model/IdlDump.v:
-//   OK <dump> | ERR | PANIC <msg> | TIMEOUT
+//
+//	OK <dump> | ERR | PANIC <msg> | TIMEOUT
 package main
 
 import (
